@@ -49,7 +49,8 @@ RULE = ('case = (file, seed, action sequence) differential trace; or (file, corr
         '(file, seed).')
 ASSUMPTIONS = ['hand assembly: registry lookup, reserved keys converted, parameters filtered by inspect.signature, functools.partial']
 REQUIRED = {'quick': {'files.identical': 21, 'ids.checked': 21, 'traces.compared': 44, 'trace.steps': 3000, 'input_unchanged': 22,
-                      'corruptions.rejected': 600, 'component_factory.compared': 300}}
+                      'corruptions.rejected': 600, 'component_factory.compared': 300, 'variations.compared': 100,
+                      'independent_builds': 22, 'interleaved_builds': 22, 'falsy_parameters.compared': 40}}
 
 
 def trace_of(env, seed, actions):
@@ -134,6 +135,11 @@ def differential(ctx, name, path, data, seeds, nsteps):
         ctx.violation('build', 'shipped.does_not_build', f'{name}: factory_env_from_yaml raised {describe_exc(env_file)}', 'diff_case', payload)
         return
     ok, env2 = call_real(factory_env_from_data, data)
+    okf2, env_file2 = call_real(factory_env_from_yaml, path)
+    ctx.hit('independent_builds')
+    if okf2 and (env_file2 is env_file or env_file2._reset_function is None):
+        ctx.violation('build', 'build.not_repeatable_shared_object',
+                      f'{name}: building the same file twice returned the same environment object', 'diff_case', payload)
     ok3, ref = call_real(compose.build_env, snapshot)
     if not ok3:
         raise ref
@@ -164,7 +170,87 @@ def differential(ctx, name, path, data, seeds, nsteps):
                               f'{name} seed {s}: trace of the factory-built environment differs from the {label} at entry #{i}: '
                               f'{t_fac[i] if i < len(t_fac) else None} vs {other[i] if i < len(other) else None}', 'diff_case',
                               dict(payload, seed=s))
+    # two builds of the same file used interleaved must behave like two independent environments
+    if okf2:
+        s0 = seeds[0]
+        rng = gen.rng_for('C17inter', name, s0)
+        actions = [rng.randrange(64) for _ in range(min(nsteps, 120))]
+        ok_r, t_solo = call_real(trace_of, ref, s0, actions)
+        ok_i, t_inter = call_real(interleaved_trace, env_file, env_file2, s0, s0 + 1, actions)
+        ctx.ev()
+        ctx.hit('interleaved_builds')
+        if ok_r and ok_i and t_inter != t_solo:
+            ctx.violation('build', 'build.not_repeatable_interleaved',
+                          f'{name}: an environment built from the file, used interleaved with a second build of the same file, does not '
+                          f'behave like the hand-assembled environment used alone', 'diff_case', dict(payload, seed=s0))
     ctx.addset('configs', name)
+
+
+def interleaved_trace(env_a, env_b, seed_a, seed_b, actions):
+    """trace of env_a while env_b (another build) is driven between its operations"""
+    env_a.set_seed(seed_a)
+    env_b.set_seed(seed_b)
+    out = []
+    env_a.reset()
+    env_b.reset()
+    out.append(('reset', enc.digest(enc.es(env_a.state)), enc.digest(enc.es(env_a.observation))))
+    for k, i in enumerate(actions):
+        acts = env_a.action_space.actions
+        a = acts[i % len(acts)]
+        env_b.step(env_b.action_space.actions[(i + k) % len(env_b.action_space.actions)])
+        if k % 7 == 3:
+            env_b.reset()
+        r, d = env_a.step(a)
+        out.append((a.name, repr(r), d, enc.digest(enc.es(env_a.state)), enc.digest(enc.es(env_a.observation))))
+        if d:
+            env_a.reset()
+            out.append(('reset', enc.digest(enc.es(env_a.state)), enc.digest(enc.es(env_a.observation))))
+    return out
+
+
+def valid_variations(data):
+    """edited but still valid configurations: every numeric parameter set to zero, every boolean flipped"""
+    out = []
+    for path in walk_functions(data):
+        spec = get_path(data, path)
+        for key, value in spec.items():
+            if key == 'name' or isinstance(value, (list, dict, str)) or value is None:
+                continue
+            new = (not value) if isinstance(value, bool) else type(value)(0)
+            if new == value and not isinstance(value, bool):
+                new = type(value)(2)
+            d = copy.deepcopy(data)
+            get_path(d, path)[key] = new
+            out.append((f'{key}={new!r}@' + '/'.join(map(str, path)), d))
+    return out
+
+
+def variation_checks(ctx, name, data, seed, nsteps):
+    for vid, var in valid_variations(data):
+        payload = {'file': name, 'variation': vid}
+        ok_r, ref = call_real(compose.build_env, copy.deepcopy(var))
+        ok_f, env = call_real(factory_env_from_data, copy.deepcopy(var))
+        ctx.ev()
+        if not ok_r:
+            # the hand assembly rejects it too (e.g. num_obstacles too large): the factory must reject it as well
+            if ok_f:
+                ctx.violation('build', 'variation.accepted_but_not_buildable_by_hand', f'{name} [{vid}]: factory built what the '
+                              f'named components reject ({describe_exc(ref)})', 'variation_case', payload)
+            continue
+        ctx.hit('variations.compared')
+        ctx.nontrivial((name, vid))
+        if not ok_f:
+            ctx.violation('build', 'variation.rejected', f'{name} [{vid}]: valid edited configuration rejected with {describe_exc(env)}',
+                          'variation_case', payload)
+            continue
+        rng = gen.rng_for('C17var', name, vid)
+        actions = [rng.randrange(64) for _ in range(nsteps)]
+        ok1, t1 = call_real(trace_of, env, seed, actions)
+        ok2, t2 = call_real(trace_of, ref, seed, actions)
+        if ok1 != ok2 or (ok1 and t1 != t2):
+            ctx.violation('build', 'variation.trace_differs',
+                          f'{name} [{vid}]: the factory-built environment of the edited configuration behaves differently from the '
+                          f'hand-assembled one', 'variation_case', payload)
 
 
 # ------------------------------------------------------------------ corruptions
@@ -357,6 +443,8 @@ def component_factories(ctx, n):
                 ctx.violation('component', f'factory.differs.{kind}.{spec["name"]}',
                               f'{kind}.factory({spec["name"]}, **kw + junk) behaves differently from registry[{spec["name"]}] with the '
                               f'accepted parameters', 'factory_case', payload)
+        if k == 0:
+            falsy_parameters(ctx, triples, comp)
         # unknown names and missing required parameters at the component level
         for kind, mod in FACTORY_MODULES.items():
             ok, res = call_real(mod.factory, 'no_such_component_xyz')
@@ -370,6 +458,64 @@ def component_factories(ctx, n):
                 if ok or not isinstance(res, ValueError):
                     ctx.violation('reject', f'factory.missing_required.{kind}',
                                   f'{kind}.factory({spec["name"]}) without {rp} -> {res!r}', 'factory_case', {'kind': kind, 'spec': spec})
+
+
+def falsy_parameters(ctx, triples, comp):
+    """every optional numeric/boolean parameter of every registered function given as 0 / 0.0 / False
+    (where that differs from the default) must reach the function"""
+    import functools
+    import inspect
+    for kind, mod in FACTORY_MODULES.items():
+        reg = compose.REGISTRY[kind]()
+        n_pos = {'reset': 0, 'transition': 2, 'reward': 3, 'terminating': 3, 'observation': 1, 'visibility': 2}[kind]
+        for name in list(reg.keys()):
+            fn = reg[name]
+            params = inspect.signature(fn).parameters
+            base = {}
+            skip = False
+            for i, (pn, pp) in enumerate(params.items()):
+                if i < n_pos or pn == 'rng':
+                    continue
+                if pp.default is inspect.Parameter.empty:
+                    if pn == 'object_type':
+                        base[pn] = comp.types[0]
+                    elif pn == 'area':
+                        base[pn] = comp.area
+                    elif pn == 'shape':
+                        from gym_gridverse.geometry import Shape
+                        base[pn] = Shape(6, 7)
+                    elif pn == 'num_obstacles':
+                        base[pn] = 2
+                    else:
+                        skip = True
+            if skip:
+                continue
+            for pn, pp in params.items():
+                d = pp.default
+                if pn in base or d is inspect.Parameter.empty or not isinstance(d, (bool, int, float)) or not d:
+                    continue
+                kw = dict(base)
+                kw[pn] = type(d)(0)
+                ok, f = call_real(mod.factory, name, **kw)
+                ref = functools.partial(fn, **kw)
+                ctx.ev()
+                ctx.hit('falsy_parameters.compared')
+                payload = {'kind': kind, 'spec': {'name': name, pn: kw[pn]}}
+                if not ok:
+                    ctx.violation('component', f'factory.raises.{kind}', f'{kind}.factory({name}, {pn}={kw[pn]!r}) raised {describe_exc(f)}',
+                                  'factory_case', payload)
+                    continue
+                try:
+                    same = outputs(kind, f, triples, comp, 12345) == outputs(kind, ref, triples, comp, None)
+                except Exception as e:
+                    from ..monitor import raised_by_harness
+                    if raised_by_harness(e):
+                        raise
+                    same = True
+                if not same:
+                    ctx.violation('component', f'factory.drops_falsy_parameter.{kind}',
+                                  f'{kind}.factory({name}, {pn}={kw[pn]!r}) behaves differently from {name} called with {pn}={kw[pn]!r}',
+                                  'factory_case', payload)
 
 
 def accepts(kind, name, param):
@@ -418,6 +564,7 @@ def run(ctx):
             if not ctx.mine(i):
                 continue
             differential(ctx, name, path, data, [ctx.seed * 10 + s for s in range(ctx.pick(2, 24))], ctx.pick(150, 400))
+            variation_checks(ctx, name, data, ctx.seed, ctx.pick(60, 150))
             if not ctx.out_of_time(0.8):
                 corruption_checks(ctx, name, data)
             else:
@@ -444,3 +591,6 @@ def replay(ctx, kind, payload):
                     ctx.violation('reject', 'corruption.wrong_exception', f'[{cid}] -> {describe_exc(res)}', kind, payload)
     elif kind == 'factory_case':
         component_factories(ctx, 12)
+    elif kind == 'variation_case':
+        p, d = configs[payload['file']]
+        variation_checks(ctx, payload['file'], d, 0, 100)
